@@ -380,7 +380,7 @@ def run(ctx):
         if n % ctx.nshards == ctx.shard:
             judge(ctx, ops)
             judge(ctx, ops, keep_refs=False)
-    for n in range(12000 if quick else 40000):
+    for n in range(ctx.n(12000 if quick else 40000)):
         ops = gen_history(rng, rng.randint(20, 80))
         judge(ctx, ops, keep_refs=bool(n % 8))
         if n in (1, 70) and ctx.shard == 0:
